@@ -62,6 +62,12 @@ type rewriter struct {
 	rel     string
 	changed bool
 	usesShim bool
+	funcs   []funcRange
+}
+
+type funcRange struct {
+	from, to token.Pos
+	name     string
 }
 
 func main() {
@@ -257,7 +263,34 @@ func (rw *rewriter) site(n ast.Node) ast.Expr {
 		at = n.Pos()
 	}
 	pos := rw.p.Fset.Position(at)
-	return &ast.BasicLit{Kind: token.STRING, Value: fmt.Sprintf("%q", fmt.Sprintf("%s:%d", rw.rel, pos.Line))}
+	// site = file:line|expression|enclosing function  (the last two survive line shifts)
+	expr := ""
+	switch x := n.(type) {
+	case *ast.SelectorExpr:
+		expr = types.ExprString(x)
+	case *ast.Ident:
+		expr = x.Name
+	case *ast.SendStmt:
+		expr = "send"
+	case *ast.UnaryExpr:
+		expr = "recv"
+	case *ast.CallExpr:
+		expr = "close"
+	case *ast.RangeStmt:
+		expr = "range"
+	case *ast.GoStmt:
+		expr = "go"
+	}
+	if len(expr) > 60 {
+		expr = expr[len(expr)-60:]
+	}
+	fn := ""
+	for _, fr := range rw.funcs {
+		if at >= fr.from && at <= fr.to {
+			fn = fr.name
+		}
+	}
+	return &ast.BasicLit{Kind: token.STRING, Value: fmt.Sprintf("%q", fmt.Sprintf("%s:%d|%s|%s", rw.rel, pos.Line, expr, fn))}
 }
 
 func shimSel(name string) ast.Expr {
@@ -316,6 +349,15 @@ func orderedKey(t types.Type) bool {
 }
 
 func (rw *rewriter) file(f *ast.File) {
+	for _, d := range f.Decls {
+		if fd, ok := d.(*ast.FuncDecl); ok {
+			name := fd.Name.Name
+			if fd.Recv != nil && len(fd.Recv.List) > 0 {
+				name = types.ExprString(fd.Recv.List[0].Type) + "." + name
+			}
+			rw.funcs = append(rw.funcs, funcRange{fd.Pos(), fd.End(), name})
+		}
+	}
 	info := rw.p.TypesInfo
 	acts := map[ast.Node]actKind{}
 	skip := map[ast.Node]bool{}
